@@ -238,6 +238,7 @@ PROPS = {
                 "oracle: generated grids of the 15 legal pairs with attached tEXt/pHYs/private chunks and ICC profiles x generated options; distinct = distinct requests / (image, options)",
     },
     "C06": {
+        "needs_binary": True,
         "lean": ["OxiModel.Props.C06"],
         "streams": [{"name": "corr-eval", "quick": 400, "thorough": 6000}],
         "oracles": [{"name": "oracle-determinism", "quick": 250, "thorough": 4000}],
